@@ -76,7 +76,10 @@ POOLS = {
         ["text/html", "text/plain; charset=ascii", "text/plain; charset=utf-8", "text/markdown; variant=gh", "",
          "garbage", "application/json", "text/markdown; variant=gfm", "text", "text/plain; charset=UTF-8; charset=ascii",
          "text/x-rst; charset=latin1", "text/plainx", "xtext/plain", "text/plain, text/html"],
-        ["text/plain\nfoo", "text/markdown\r\n", "text/x-rst\r; variant=a"]),
+        ["text/plain\nfoo", "text/markdown\r\n", "text/x-rst\r; variant=a",
+         # RFC 2231 parameter syntax the standard library's header parser trips over
+         "text/plain; a*", "text/plain; a*0*=\"x'", "text/plain; charset*", "text/markdown; variant*=", "text/plain; charset*0=UTF-8",
+         "text/plain; charset*=utf-8''UTF-8", "text/plain; charset*0*=''UTF; charset*1=-8"]),
     "keywords": ([["a", "b"], [], ["one"], ["with space", "ünï"], [""]], [], []),
     "dynamic": ([["Author", "requires-dist"], ["LICENSE-FILE"], [], ["Keywords"], ["description", "Summary", "classifier"],
                  ["Keywords"]],
@@ -273,7 +276,7 @@ def oracle_table(data):
             params = m["content-type"].params
             cs, var = params.get("charset"), params.get("variant")
             ent[("c", s)] = "p" + ",".join([core.enc(ct), core.enc(cs), core.enc(var)])
-        except ValueError:
+        except (ValueError, IndexError):      # the two classes _process_description_content_type turns into InvalidMetadata
             ent[("c", s)] = "b"
         except Exception as e:
             ent[("c", s)] = "x" + core.enc(type(e).__name__)
@@ -445,7 +448,7 @@ def extract_doc(data):
         parsed = email.parser.Parser(policy=email.policy.compat32).parsestr(data, headersonly=True)
     else:
         parsed = email.parser.BytesParser(policy=email.policy.compat32).parsebytes(data, headersonly=True)
-    order = list(frozenset(parsed.keys()))
+    order = sorted(frozenset(parsed.keys()))      # the loop visits the spelled names sorted
     hdrs = []
     for k, v in parsed.items():
         if isinstance(v, email.header.Header):
@@ -461,6 +464,7 @@ def extract_doc(data):
         p = parsed.get_payload()
         payload = "s" + core.enc(p) if isinstance(p, str) else "o"
     else:
+        del parsed["content-transfer-encoding"]      # as _get_payload does: the body's bytes, not transfer-decoded
         p = parsed.get_payload(decode=True)
         payload = "b" + enc_bytes(p) if isinstance(p, bytes) else "o"
     return enc_atoms(order), ";".join(hdrs) or "_", payload
